@@ -1,8 +1,10 @@
 import QrlModel.Props.C01
 import QrlModel.Props.C06
 import QrlModel.Proofs.Seg.H14
-/-! Thorough tier: the label-level whole-life check of height 14 (43 segment certificates of 381 indices,
-about 8 minutes of kernel evaluation) and the C01 / C06 statements for that height. -/
+import QrlModel.Proofs.Seg.H16
+/-! Thorough tier: the label-level whole-life checks of height 14 (43 segment certificates of 381 indices, about
+5 minutes of kernel evaluation on 16 cores) and of height 16 (key generation in 256 pieces of 256 leaves, the
+traversal in 257 certificates of 255 indices; about 20 minutes), and the C01 / C06 statements for those heights. -/
 namespace Qrl.Xmss.Thorough
 open Qrl.BdsLabel
 
@@ -11,5 +13,11 @@ theorem C01_h14 (hashOf : Nat → Bytes → Bytes) (shake256 : Bytes → Nat →
 
 theorem C06_h14 (hashOf : Nat → Bytes → Bytes) (shake256 : Bytes → Nat → Bytes) : C06.C06Statement hashOf shake256 14 :=
   C06.C06_height hashOf shake256 14 Seg14.traversal (by decide) (by decide)
+
+theorem C01_h16 (hashOf : Nat → Bytes → Bytes) (shake256 : Bytes → Nat → Bytes) : C01.C01Statement hashOf shake256 16 :=
+  C01.C01_height hashOf shake256 16 Seg16.traversal (by decide) (by decide) (by decide)
+
+theorem C06_h16 (hashOf : Nat → Bytes → Bytes) (shake256 : Bytes → Nat → Bytes) : C06.C06Statement hashOf shake256 16 :=
+  C06.C06_height hashOf shake256 16 Seg16.traversal (by decide) (by decide)
 
 end Qrl.Xmss.Thorough
